@@ -179,9 +179,17 @@ def check_zoned(c, provider, source, key, mk, w, is_utc_key):
     # the caller's own parameters come on top of the ones the value needs (TZID), they do not replace them
     ev.add("recurrence-id", val, parameters={"RANGE": "THISANDFUTURE"})
     ev.add("exdate", [val, mk(w + timedelta(days=1, hours=1))], parameters={"X-WHY": "moved"})
+    # periods of no extent (end == start, zero duration) are periods
+    ev0 = Event()
+    ev0.add("uid", "zero-extent")
+    ev0.add("rdate", [(val, timedelta(0))])
+    fb0 = FreeBusy()
+    fb0.add("freebusy", (val, val))
     cal = Calendar()
     cal.add_component(ev)
     cal.add_component(fb)
+    cal.add_component(ev0)
+    cal.add_component(fb0)
     c.trans += 2
     try:
         data = cal.to_ical()
@@ -242,6 +250,17 @@ def check_zoned(c, provider, source, key, mk, w, is_utc_key):
             c.fail(f"{label}:offset-not-the-providers", elem, woff, got.utcoffset())
 
     chk("single", ev2["DTSTART"].dt, w)
+    try:
+        z_ev, z_fb = back.walk("VEVENT")[1], back.walk("VFREEBUSY")[1]
+        zp = z_ev["RDATE"].dts[0].dt
+        chk("zero-duration-period.start", zp[0], w)
+        if zp[1] != timedelta(0):
+            c.fail("zero-duration-period.duration", elem, "0", zp[1])
+        zf = z_fb["FREEBUSY"]
+        chk("zero-extent-freebusy.start", zf.start, w)
+        chk("zero-extent-freebusy.end", zf.end, w)
+    except (KeyError, IndexError, AttributeError, TypeError) as e:
+        c.fail("zero-extent-periods:shape", elem, "RDATE period and FREEBUSY of no extent", f"{type(e).__name__}: {e}")
     rid, exd = ev2.get("RECURRENCE-ID"), ev2.get("EXDATE")
     if rid is None or exd is None or isinstance(rid, list) or isinstance(exd, list) or len(exd.dts) != 2:
         c.fail("with-own-parameters:shape", elem, "one RECURRENCE-ID, one EXDATE of two", (repr(rid), repr(exd)))
